@@ -62,6 +62,8 @@ type mcfg struct {
 	N     int    `json:"n"`
 	Lim   int    `json:"lim"`
 	Nodes int    `json:"nodes"`
+	Tg    string `json:"tg,omitempty"`  // mapquota: the n activated codes were issued by the "same" target client or by n "distinct" ones
+	Key   string `json:"key,omitempty"` // model only: client id the modelled code keys its quota mutex on ("owner" | "issuer")
 }
 
 type behaviour struct {
@@ -80,6 +82,19 @@ type behaviour struct {
 // label names the limit in verdict details (and known-finding keys): quotas raced from two service
 // instances are "-xnode"; mapping-handler behaviours in which a connection outlives handleConnection
 // (it got its tunnel) are "maplive".
+// tag = input class appended to the verdict detail
+func (b *behaviour) tag() string {
+	if b.Cfg.K == "mapquota" && b.Cfg.Tg == "distinct" {
+		return "distinctTargets"
+	}
+	return ""
+}
+func (b *behaviour) statKey() string {
+	if t := b.tag(); t != "" {
+		return b.label() + ":" + t
+	}
+	return b.label()
+}
 func (b *behaviour) label() string {
 	if b.Cfg.Nodes > 1 {
 		return b.Cfg.K + "-xnode"
@@ -742,11 +757,21 @@ func (r *quotaRig) node(p int) *services.ConnectionCodeService {
 	}
 	return r.svc[p%2] // Limits.tla: Node(p) = 1 + (p % 2)
 }
-func (r *quotaRig) putCode(tag string) (string, error) {
+
+// issuer of the code racing request p activates. The mapping quota belongs to the LISTEN client; the
+// codes come from one target client or from n different ones whose ids differ modulo any shard count
+// up to 64 and beyond (consecutive ids).
+func (r *quotaRig) issuer(p int) int64 {
+	if r.b.Cfg.K == "mapquota" && r.b.Cfg.Tg == "distinct" {
+		return clientT + int64(p)
+	}
+	return clientT
+}
+func (r *quotaRig) putCode(tag string, target int64) (string, error) {
 	now := time.Now()
 	code := "vc-" + tag
-	err := r.ccRepo.Create(&models.TunnelConnectionCode{ID: "conncode_" + tag, Code: code, TargetClientID: clientT,
-		TargetAddress: "tcp://10.0.0.5:8080", ActivationTTL: time.Hour, MappingDuration: time.Hour, CreatedAt: now,
+	err := r.ccRepo.Create(&models.TunnelConnectionCode{ID: "conncode_" + tag, Code: code, TargetClientID: target,
+		TargetAddress: fmt.Sprintf("tcp://10.0.0.5:%d", 8000+len(tag)+int(target%7)), ActivationTTL: time.Hour, MappingDuration: time.Hour, CreatedAt: now,
 		ActivationExpiresAt: now.Add(time.Hour), CreatedBy: "verif", Description: tag})
 	return code, err
 }
@@ -771,7 +796,7 @@ func (r *quotaRig) preload(k int) error {
 			return err
 		}
 		for i := 1; i <= k; i++ {
-			if _, err := r.putCode(fmt.Sprintf("o%d", i)); err != nil {
+			if _, err := r.putCode(fmt.Sprintf("o%d", i), clientT); err != nil {
 				return err
 			}
 		}
@@ -779,7 +804,7 @@ func (r *quotaRig) preload(k int) error {
 	}
 	for i := 1; i <= k; i++ {
 		tag := fmt.Sprintf("o%d", i)
-		code, err := r.putCode(tag)
+		code, err := r.putCode(tag, clientT+100+int64(i)) // occupants: mappings of the listen client from yet other issuers
 		if err != nil {
 			return err
 		}
@@ -789,7 +814,7 @@ func (r *quotaRig) preload(k int) error {
 		}
 	}
 	for p := 1; p <= r.b.Cfg.N; p++ {
-		code, err := r.putCode(pname(p))
+		code, err := r.putCode(pname(p), r.issuer(p))
 		if err != nil {
 			return err
 		}
@@ -800,8 +825,10 @@ func (r *quotaRig) preload(k int) error {
 func (r *quotaRig) request(p int) outcome {
 	var err error
 	if r.b.Cfg.K == "codequota" {
+		// the quota is the target client's: the same client in every racing request, everything else differs
 		_, err = r.node(p).CreateConnectionCode(&services.CreateConnectionCodeRequest{TargetClientID: clientT,
-			TargetAddress: "tcp://10.0.0.5:8080", ActivationTTL: time.Hour, Description: pname(p), CreatedBy: "verif"})
+			TargetAddress: fmt.Sprintf("tcp://10.0.%d.5:%d", p, 8080+p), ActivationTTL: time.Duration(p) * time.Hour,
+			MappingDuration: time.Duration(24*p) * time.Hour, Description: pname(p), CreatedBy: "user-" + pname(p)})
 	} else {
 		_, err = r.node(p).ActivateConnectionCode(&services.ActivateConnectionCodeRequest{Code: r.codes[p], ListenClientID: clientL,
 			ListenAddress: fmt.Sprintf("0.0.0.0:%d", portOf(pname(p)))})
@@ -883,7 +910,11 @@ func (r *quotaRig) snap(p int) []string {
 			out = append(out, fmt.Sprintf("map:%s:listen=%d:status=%s:revoked=%v", tag, m.ListenClientID, m.Status, m.IsRevoked))
 		}
 	}
-	for _, key := range []string{idxMapL, "tunnox:client_mappings:" + fmt.Sprint(clientT), "tunnox:mappings:list"} {
+	keys := []string{idxMapL, "tunnox:mappings:list"}
+	for q := 0; q <= r.b.Cfg.N; q++ { // the issuers' own indexes
+		keys = append(keys, "tunnox:client_mappings:"+fmt.Sprint(clientT+int64(q)))
+	}
+	for _, key := range keys {
 		if l, ok := r.st.Peek(key); ok {
 			if items, ok := l.([]any); ok {
 				for _, x := range items {
@@ -966,7 +997,7 @@ var (
 func note(class string, b *behaviour, t *fw.Trace) {
 	statMu.Lock()
 	defer statMu.Unlock()
-	k := class + ":" + b.label()
+	k := class + ":" + b.statKey()
 	st := stats[k]
 	if st == nil {
 		st = &kindStats{}
@@ -1108,7 +1139,7 @@ func driveSched(env *fw.Env, b *behaviour) *fw.Trace {
 	if err := r.preload(preOf(b)); err != nil {
 		return &fw.Trace{Status: fw.DriverError, Note: "preload: " + err.Error()}
 	}
-	tr.add(fw.Event{"ev": "Cfg", "kind": b.label(), "n": b.Cfg.N, "lim": b.Cfg.Lim, "pre": preOf(b), "mode": "sched"})
+	tr.add(fw.Event{"ev": "Cfg", "kind": b.label(), "tag": b.tag(), "n": b.Cfg.N, "lim": b.Cfg.Lim, "pre": preOf(b), "mode": "sched"})
 	obs := func() {
 		if n := r.occ(); n >= 0 {
 			tr.add(fw.Event{"ev": "Obs", "n": n})
@@ -1324,7 +1355,7 @@ func driveFree(env *fw.Env, b *behaviour) *fw.Trace {
 	if err := r.preload(preOf(b)); err != nil {
 		return &fw.Trace{Status: fw.DriverError, Note: "preload: " + err.Error()}
 	}
-	tr.add(fw.Event{"ev": "Cfg", "kind": b.label(), "n": b.Cfg.N, "lim": b.Cfg.Lim, "pre": preOf(b), "mode": "free"})
+	tr.add(fw.Event{"ev": "Cfg", "kind": b.label(), "tag": b.tag(), "n": b.Cfg.N, "lim": b.Cfg.Lim, "pre": preOf(b), "mode": "free"})
 	rel := make([]bool, b.Cfg.N+1)
 	for p := 1; p <= b.Cfg.N; p++ {
 		rel[p] = rnd.Intn(3) == 0
@@ -1414,7 +1445,7 @@ const (
 )
 
 func job(name string, c map[string]string) fw.TLCJob {
-	d := map[string]string{"KINDS": allKinds, "NS": "{2, 3, 4}", "LIMS": "{0, 1, 2}", "NODES": "{1}", "FIXED": fixedAll,
+	d := map[string]string{"KINDS": allKinds, "NS": "{2, 3, 4}", "LIMS": "{0, 1, 2}", "NODES": "{1}", "KEYS": `{"owner"}`, "FIXED": fixedAll,
 		"REL": "TRUE", "EMIT": "FALSE", "EMITALL": "FALSE", "VIEW": "VIEW view", "INVS": ""}
 	for k, v := range c {
 		d[k] = v
@@ -1454,8 +1485,9 @@ func main() {
 				job("mc:fixed", map[string]string{"INVS": "NoOvershoot NoDeviation RefusedNoEffect CounterExact"}),
 				// the code as it was: every overshoot goes through a named deviation (insert on a stale check)
 				job("mc:asis", map[string]string{"FIXED": "{}", "INVS": "Safe RefusedNoEffect CounterExact"}),
-				// repaired quotas on two service instances: what the per-instance mutex leaves open
-				job("mc:xnode", map[string]string{"KINDS": quotaKinds, "NODES": "{2}", "INVS": "Safe RefusedNoEffect CounterExact"}),
+				// repaired quotas on two service instances, and with the mutex keyed on the code's issuer instead of the
+				// quota's owner: what the per-instance mutex leaves open / what the wrong key leaves open (named deviations)
+				job("mc:open", map[string]string{"KINDS": quotaKinds, "NODES": "{1, 2}", "KEYS": `{"owner", "issuer"}`, "INVS": "Safe RefusedNoEffect CounterExact"}),
 			}
 		},
 		GenJobs: func(env *fw.Env) []fw.TLCJob {
@@ -1466,6 +1498,8 @@ func main() {
 				job("all-legacy:n2", map[string]string{"KINDS": racyKinds, "NS": "{2}", "FIXED": "{}", "EMITALL": "TRUE", "VIEW": "", "INVS": "EmitMaximal"}),
 			}
 			if env.Tier == "thorough" {
+				// the model of "mutex keyed on the issuer": on the right tree the second activation blocks (unrealisable)
+				jobs = append(jobs, job("legacy-wrongkey", map[string]string{"KINDS": `{"mapquota"}`, "KEYS": `{"issuer"}`, "EMIT": "TRUE"}))
 				jobs = append(jobs,
 					job("all:n3", map[string]string{"NS": "{3}", "NODES": "{1, 2}", "EMITALL": "TRUE", "VIEW": "", "INVS": "EmitMaximal"}),
 					// (as-is quota behaviours block on the mutex of the repaired tree and are covered by "legacy"; here only the two caps)
@@ -1484,9 +1518,11 @@ func main() {
 				cls = "legacy"
 			}
 			statMu.Lock()
-			genN[cls+":"+b.label()]++
-			if b.Over {
-				genOv[cls+":"+b.label()]++
+			if src != "legacy-wrongkey" {
+				genN[cls+":"+b.statKey()]++
+				if b.Over {
+					genOv[cls+":"+b.statKey()]++
+				}
 			}
 			statMu.Unlock()
 			if b.Cfg.K == "maplimit" {
@@ -1536,6 +1572,9 @@ func main() {
 								b.Via = []string{"mapping", "userquota"}[i%2]
 								b.Live = i%3 == 2
 							}
+							if k == "mapquota" {
+								b.Cfg.Tg = []string{"distinct", "same"}[i%2]
+							}
 							out = append(out, fw.MustJSON(b))
 							if (k == "codequota" || k == "mapquota") && lim > 0 && i%3 == 0 {
 								b.Cfg.Nodes = 2
@@ -1563,7 +1602,7 @@ func main() {
 			}
 			fmt.Printf("[c17]   hook point %s reached %d times\n", hookPoint, hookSeen.Load())
 			if len(genN) > 0 { // not a replay: the as-is model must still exhibit each race (vacuity guard)
-				for _, k := range []string{"conncap", "maplimit", "maplive", "codequota", "mapquota"} {
+				for _, k := range []string{"conncap", "maplimit", "maplive", "codequota", "mapquota", "mapquota:distinctTargets"} {
 					if genOv["legacy:"+k] == 0 {
 						return fmt.Errorf("the as-is model no longer exhibits an overshoot for %s (%d behaviours generated)", k, genN["legacy:"+k])
 					}
